@@ -61,7 +61,8 @@ def header_digest():
     files = sorted(glob.glob(os.path.join(REPO, "include", "**", "*.h"), recursive=True)) + sorted(glob.glob(os.path.join(QSIM, "*")))
     for f in files:
         if os.path.isfile(f):
-            h.update(f.encode())
+            # relative names: the same tree at another path (a scratch worktree) shares the cache
+            h.update(os.path.relpath(f, REPO if f.startswith(REPO + os.sep) else QSIM).encode())
             h.update(open(f, "rb").read())
     return h.hexdigest()[:16]
 
@@ -75,9 +76,10 @@ def build_harness(variant, log):
     if os.path.exists(stamp):
         st = json.load(open(stamp))
         return [os.path.join(d, o) for o in st["objs"]], st["mask"], st["notes"]
-    # drop stale caches of this variant
-    for old in glob.glob(os.path.join(BUILD, "harness", variant + "-*")):
-        shutil.rmtree(old, ignore_errors=True)
+    # build into a private directory and publish it atomically: concurrent checks may share the cache
+    final_d = d
+    d = final_d + ".tmp%d" % os.getpid()
+    shutil.rmtree(d, ignore_errors=True)
     os.makedirs(d, exist_ok=True)
     cxx = ["g++", "-std=c++17", "-O1", "-g", "-Wall", "-Wno-unused-function", "-I" + QSIM] + INCLUDES + v["har"] + v["defs"]
     jobs = []
@@ -98,17 +100,28 @@ def build_harness(variant, log):
                 log.write("== %s failed to compile:\n%s\n" % (s, r.stdout))
                 continue
             sys.stderr.write(r.stdout)
-            raise SystemExit("HARNESS-BUILD-ERROR in %s (variant %s)" % (s, variant))
+            print("HARNESS-BUILD-ERROR in %s (variant %s)" % (s, variant))
+            sys.exit(2)
         if s in world_of:
             mask |= world_of[s][1]
         objs.append(s.replace(".cpp", ".o"))
     r = sh(cxx + ["-DQSIM_WORLDS=%d" % mask, "-c", os.path.join(QSIM, "worlds.cpp"), "-o", os.path.join(d, "worlds.o")])
     if r.returncode != 0:
         sys.stderr.write(r.stdout)
-        raise SystemExit("HARNESS-BUILD-ERROR in worlds.cpp")
+        print("HARNESS-BUILD-ERROR in worlds.cpp")
+        sys.exit(2)
     objs.append("worlds.o")
-    json.dump({"objs": objs, "mask": mask, "notes": notes}, open(stamp, "w"))
-    return [os.path.join(d, o) for o in objs], mask, notes
+    json.dump({"objs": objs, "mask": mask, "notes": notes}, open(os.path.join(d, "STAMP.json"), "w"))
+    try:
+        os.rename(d, final_d)
+    except OSError:
+        shutil.rmtree(d, ignore_errors=True)       # somebody else published the same cache meanwhile
+    # keep the cache small: drop all but the four most recent caches of this variant (never one that may be in use)
+    caches = sorted([c for c in glob.glob(os.path.join(BUILD, "harness", variant + "-*")) if ".tmp" not in c], key=lambda p: os.path.getmtime(p), reverse=True)
+    for old in caches[4:]:
+        if time.time() - os.path.getmtime(old) > 3600:
+            shutil.rmtree(old, ignore_errors=True)
+    return [os.path.join(final_d, o) for o in objs], mask, notes
 
 
 def build_variant(variant, rundir, log):
@@ -127,14 +140,16 @@ def build_variant(variant, rundir, log):
     for (s, o, _), r in res:
         if r.returncode != 0:
             sys.stderr.write(r.stdout)
-            raise SystemExit("SUT-BUILD-ERROR: %s does not compile" % s)
+            print("SUT-BUILD-ERROR: %s does not compile" % s)
+            sys.exit(2)
     hobjs, mask, notes = build_harness(variant, log)
     exe = os.path.join(out, "qsim")
     link = ["g++", "-o", exe] + hobjs + [j[1] for j in jobs] + ["-Wl,--wrap=" + w for w in WRAPS.split(",")] + ["-lpthread", "-lm"] + v["link"]
     r = sh(link)
     if r.returncode != 0:
         sys.stderr.write(r.stdout)
-        raise SystemExit("LINK-ERROR (variant %s)" % variant)
+        print("LINK-ERROR (variant %s)" % variant)
+        sys.exit(2)
     return exe, mask, notes
 
 
@@ -434,7 +449,8 @@ def cmd_check(argv):
     ev = build_evidence(prop, tier, seed, level, pools, variants, notes, known_seen, violations, fail_counts, harness_errors, build_s, search_s, time.time() - t0, regress)
     if valgrind_info:
         ev["coverage"]["valgrind_pass"] = valgrind_info
-    json.dump(ev, open(os.path.join(ROOT, "evidence", "%s.json" % prop), "w"), indent=1)
+    if not os.environ.get("VERIF_NOEVIDENCE"):      # (developer runs against scratch copies must not overwrite the evidence of /repo)
+        json.dump(ev, open(os.path.join(ROOT, "evidence", "%s.json" % prop), "w"), indent=1)
     for what, path, kv in violations:
         print("VIOLATION property=%s replay=%s" % (prop, path))
         print("  class=%s oracle=%s signature=%s" % (kv.get("class", "?"), kv.get("oracle", "?"), kv.get("sig", "?")))
